@@ -7,6 +7,48 @@
 #include <openssl/evp.h>
 
 /* ------------------------------------------------------------------ names */
+
+/* one suite (and direction) per out-of-order manager of the library (lib/x86_64/alloc.c: ooo_mgr_table), so that
+ * history-based engines (re-init, crash, threads) park jobs in every one of them */
+static const struct {
+        const char *name;
+        int fam; /* 0 cipher 1 hash 2 aead */
+        int dir; /* 0 any */
+} ooo_tab[] = {
+        { "aes-cbc-128", 0, IMB_DIR_ENCRYPT },     { "aes-cbc-192", 0, IMB_DIR_ENCRYPT },     { "aes-cbc-256", 0, IMB_DIR_ENCRYPT },
+        { "docsis-sec-128", 0, IMB_DIR_ENCRYPT },  { "docsis-sec-256", 0, IMB_DIR_ENCRYPT },  { "docsis-crc32-128", 2, IMB_DIR_ENCRYPT },
+        { "docsis-crc32-256", 2, IMB_DIR_ENCRYPT }, { "des-cbc", 0, IMB_DIR_ENCRYPT },        { "des-cbc", 0, IMB_DIR_DECRYPT },
+        { "3des-cbc", 0, IMB_DIR_ENCRYPT },        { "3des-cbc", 0, IMB_DIR_DECRYPT },        { "docsis-des", 0, IMB_DIR_ENCRYPT },
+        { "docsis-des", 0, IMB_DIR_DECRYPT },      { "hmac-sha1", 1, 0 },                     { "hmac-sha224", 1, 0 },
+        { "hmac-sha256", 1, 0 },                   { "hmac-sha384", 1, 0 },                   { "hmac-sha512", 1, 0 },
+        { "hmac-md5", 1, 0 },                      { "aes-xcbc", 1, 0 },                      { "aes-ccm-128", 2, 0 },
+        { "aes-ccm-256", 2, 0 },                   { "aes-cmac", 1, 0 },                      { "aes-cmac-256", 1, 0 },
+        { "aes-cmac-bit", 1, 0 },                  { "aes-cbcs-128", 0, IMB_DIR_ENCRYPT },    { "zuc-eea3-128", 0, 0 },
+        { "zuc-eea3-256", 0, 0 },                  { "zuc-eia3", 1, 0 },                      { "zuc256-eia3", 1, 0 },
+        { "snow3g-uea2", 0, 0 },                   { "snow3g-uia2", 1, 0 },                   { "sha1", 1, 0 },
+        { "sha224", 1, 0 },                        { "sha256", 1, 0 },                        { "sha384", 1, 0 },
+        { "sha512", 1, 0 },                        { "aes-cfb-128", 0, IMB_DIR_ENCRYPT },     { "aes-cfb-192", 0, IMB_DIR_ENCRYPT },
+        { "aes-cfb-256", 0, IMB_DIR_ENCRYPT },
+};
+int
+item_pick_ooo(struct rng *r, const struct suite **cs, const struct suite **hs, int *dir)
+{
+        unsigned k = rng_below(r, ARRAY_SZ(ooo_tab));
+        const struct suite *t = ooo_tab[k].fam == 0 ? g_cipher_suites : ooo_tab[k].fam == 1 ? g_hash_suites : g_aead_suites;
+        int n = ooo_tab[k].fam == 0 ? g_n_cipher_suites : ooo_tab[k].fam == 1 ? g_n_hash_suites : g_n_aead_suites;
+        *cs = *hs = NULL;
+        *dir = ooo_tab[k].dir;
+        for (int i = 0; i < n; i++)
+                if (!strcmp(t[i].name, ooo_tab[k].name)) {
+                        if (ooo_tab[k].fam == 1)
+                                *hs = &t[i];
+                        else
+                                *cs = &t[i];
+                        return (int) k;
+                }
+        harness_fail("item_pick_ooo: suite %s missing", ooo_tab[k].name);
+}
+
 const char *
 cipher_name(int c)
 {
@@ -1766,6 +1808,18 @@ first_diff(const uint8_t *a, const uint8_t *b, size_t n)
                 if (a[i] != b[i])
                         return (long) i;
         return -1;
+}
+
+/* the violation key item_check() would use for a destination (is_tag = 0) or tag (is_tag = 1) mismatch of this
+ * item: lets engines that compare recorded expectations themselves (crash engine) report under the same identity */
+void
+item_mismatch_key(const struct item *it, const char *prop, const char *variant, int is_tag, char *key, size_t n)
+{
+        const char *sname = it->cipher != IMB_CIPHER_NULL ? cipher_name(it->cipher) : hash_name(it->hash);
+        if (is_tag)
+                snprintf(key, n, "%s|%s|%s|tag%s", prop, variant, hash_name(it->hash), item_geom_class(it));
+        else
+                snprintf(key, n, "%s|%s|%s-%u|dir%d|dst%s", prop, variant, sname, it->keylen * 8, it->dir, item_geom_class(it));
 }
 
 int
